@@ -325,3 +325,79 @@ def run_eqtol(c, ctx, parse_text):
             devs.append(dev('equality-tolerance:%s' % ('values-%s-apart-compare-%s' % ('%g' % abs(d), 'unequal' if equal else 'equal')),
                             dict(text=text, relative_distance=d, magnitude=x, observed=None if obs is None else bool(obs), expected=exp), known=known))
     return outcome(classes=classes, nontrivial=True, fp='eqtol ' + text, dev=devs, monitors=mon, sample=dict(text=text, expected=exp, observed=None if obs is None else bool(obs)))
+
+
+# ------------------------------------------------------------------------------------------------ definedness by node state
+# "Definition operator returns true if <reference> node exists" (docs) - at the place where the test stands: a node that
+# is declared but has not received its value yet exists; a node defined further down does not exist yet; a node set to none
+# exists; in a text whose first line is the test nothing exists (and that is an answer, not an error).
+
+KEY_DEFEMPTY = 'C18-definedness-test-raises-in-empty-environment'
+DEF_STATES = ['absent-nothing-defined-yet', 'absent', 'declared-value-later', 'defined', 'none-valued', 'defined-further-down',
+              'in-group', 'modified-before', 'zero-valued', 'false-valued', 'empty-string']
+DEF_FORMS = ['bool-node', 'negated', 'case', 'case-negated', 'and-true', 'or-false', 'bool-node-twice']
+
+
+def gen_defstate(rng):
+    return dict(t='defstate', state=rng.choice(DEF_STATES), form=rng.choice(DEF_FORMS), filler=rng.random() < 0.5)
+
+
+def run_defstate(c, ctx, parse_text):
+    st, form = c['state'], c['form']
+    pre, post, ref = [], [], 'r'
+    exists = True
+    if st == 'absent-nothing-defined-yet':
+        exists = False
+    elif st == 'absent':
+        pre, exists = ['other int = 3'], False
+    elif st == 'declared-value-later':
+        pre, post = ['r float cm'], ['r = 3']
+    elif st == 'defined':
+        pre = ['r float = 2 cm']
+    elif st == 'none-valued':
+        pre = ['r float = none cm']
+    elif st == 'defined-further-down':
+        pre, post, exists = ['other int = 3'], ['r float = 2 cm'], False
+    elif st == 'in-group':
+        pre, ref = ['g', '  r float = 2 cm'], 'g.r'
+    elif st == 'modified-before':
+        pre = ['r float = 2 cm', 'r = 5 mm']
+    elif st == 'zero-valued':
+        pre = ['r float = 0 cm']
+    elif st == 'false-valued':
+        pre = ['r bool = false']
+    elif st == 'empty-string':
+        pre = ['r str = ""']
+    if c['filler'] and st != 'absent-nothing-defined-yet':
+        pre = ['first str = "x"'] + pre
+    test = {'bool-node': '!{?%s}', 'negated': '~!{?%s}', 'case': '!{?%s}', 'case-negated': '~!{?%s}', 'and-true': '!{?%s} && true',
+            'or-false': '!{?%s} || false', 'bool-node-twice': '!{?%s}'}[form] % ref
+    exp = (not exists) if 'negated' in form else exists
+    L = list(pre)
+    if form.startswith('case'):
+        L += ['@case ("%s")' % test, '  t bool = true', '@else', '  t bool = false', '@end']
+    else:
+        L.append('t bool = ("%s")' % test)
+    L += post
+    exp2 = None
+    if form == 'bool-node-twice':
+        L.append('t2 bool = ("%s")' % test)             # the same text once more, after whatever follows the first test
+        exp2 = exists or st == 'defined-further-down'
+    text = '\n'.join(L) + '\n'
+    classes = ['definedness-by-state', 'definedness-by-state:' + st, 'definedness-form:' + form]
+    devs, mon = [], dict(definedness_state_programs=1)
+    kind, res = parse_text(ctx, text)
+    obs = None
+    if kind != 'ok':
+        known = KEY_DEFEMPTY if (st == 'absent-nothing-defined-yet' and 'Local nodes are not available' in repr(res)) else None
+        devs.append(dev('definedness:valid-program-rejected(%s)' % st, dict(text=text, exc=repr(res)[:160]), known=known))
+    else:
+        d = res.data()
+        obs = d.get('t')
+        if obs is None or bool(obs) != exp:
+            devs.append(dev('definedness:test-on-%s-node-is-%s' % (st, 'absent' if obs is None else str(bool(obs)).lower()),
+                            dict(text=text, expected=exp, observed=None if obs is None else bool(obs))))
+        if exp2 is not None and (d.get('t2') is None or bool(d.get('t2')) != exp2):
+            devs.append(dev('definedness:repeated-test-on-%s-node-differs' % st, dict(text=text, expected=exp2, observed=repr(d.get('t2')))))
+    return outcome(classes=classes, nontrivial=True, fp='defstate ' + text, dev=devs, monitors=mon,
+                   sample=dict(text=text, expected=exp, observed=None if obs is None else bool(obs)))
